@@ -601,9 +601,16 @@ def _finish_fn(d, log, sig, body, src_start, src_end, sha, dropped_attrs, emitte
         while i < c:
             t = toks[i]
             if t.kind == 'punct' and t.text in '([{':
-                # a block-like statement (`if`, `match`, `loop` ...) without `;` also ends a statement, but only the
-                # LAST expression matters: remember position after a brace group that is followed by more code
-                i = t.match + 1
+                # a block-like statement (`for`, `if`, `match`, `loop` ...) without `;` also ends a statement: a brace
+                # group directly followed by an identifier that starts a new expression (not `else`/`as`) is a boundary
+                j = t.match + 1
+                if t.text == '{':
+                    k = j
+                    while k < c and toks[k].kind in rustlex.SIG:
+                        k += 1
+                    if k < c and toks[k].kind == 'ident' and toks[k].text not in ('else', 'as'):
+                        last_semi = t.match
+                i = j
                 continue
             if t.kind == 'punct' and t.text == ';':
                 last_semi = i
